@@ -101,24 +101,34 @@ static void tsproj(time_t sec, long long msec, long long *out)
 static void put_rec(const struct rec *r) { vt_lb(); for (int i = 0; i < 10; i++) vt_i(r->f[i]); vt_le(); }
 
 static char litfmt[8][600];
+static int log_up;
+/* The log system is initialised once per process; "Init" closes the blackbox and opens a
+ * fresh ring of the requested size.  (qb_log_fini/qb_log_init per history would walk into a
+ * libqb limit unrelated to this property: log_dcs.c never resets callsite_arr_next, so
+ * dynamic call sites are used up across re-initialisations and _log_dcs_new_cs asserts.) */
 static void do_init(int size)
 {
-	qb_log_init("h_bbfile", LOG_USER, LOG_EMERG);
-	qb_log_ctl(QB_LOG_SYSLOG, QB_LOG_CONF_ENABLED, QB_FALSE);
+	int rc3 = 0;
+	if (!log_up) {
+		qb_log_init("h_bbfile", LOG_USER, LOG_EMERG);
+		qb_log_ctl(QB_LOG_SYSLOG, QB_LOG_CONF_ENABLED, QB_FALSE);
+		rc3 = qb_log_filter_ctl(QB_LOG_BLACKBOX, QB_LOG_FILTER_ADD, QB_LOG_FILTER_FILE, SRCFILE, LOG_TRACE);
+		log_up = 1;
+	}
+	qb_log_ctl(QB_LOG_BLACKBOX, QB_LOG_CONF_ENABLED, QB_FALSE);
 	int rc1 = qb_log_ctl(QB_LOG_BLACKBOX, QB_LOG_CONF_SIZE, size);
 	int rc2 = qb_log_ctl(QB_LOG_BLACKBOX, QB_LOG_CONF_ENABLED, QB_TRUE);
-	int rc3 = qb_log_filter_ctl(QB_LOG_BLACKBOX, QB_LOG_FILTER_ADD, QB_LOG_FILTER_FILE, SRCFILE, LOG_TRACE);
 	inited = 1; nlog = 0;
 	vt_ev("Init"); vt_i(size); vt_res(); vt_i(rc1 == 0 && rc2 == 0 && rc3 == 0); vt_end();
 }
-static void do_fini(void) { if (inited) { qb_log_fini(); inited = 0; } }
+static void do_fini(void) { if (inited) { qb_log_ctl(QB_LOG_BLACKBOX, QB_LOG_CONF_ENABLED, QB_FALSE); inited = 0; } }
 
 static void do_log(int prio, int fn, long long tags, int fk, int sz)
 {
 	static char pad[1024], pad2[1024], expect[2048];
 	struct rec r;
 	int id = ++nlog;
-	uint32_t line = 1 + (uint32_t)((id * 37) % 9973);
+	uint32_t line = 1 + (uint32_t)(((prio * 131 + fn * 31 + (int)(tags % 97) * 7 + fk * 3 + sz) * 37) % 9973);
 	if (sz > 460) sz = 460;
 	for (int i = 0; i < sz; i++) { pad[i] = 'a' + (i + id) % 26; pad2[i] = 'A' + (i * 7 + id) % 26; }
 	vsec = 1600000000LL + (long long)id * 4001; vusec = ((long long)id * 137911) % 1000000;
@@ -142,7 +152,7 @@ static void do_log(int prio, int fn, long long tags, int fk, int sz)
 	default: {
 		/* literal-only format of the requested size (the format string is the message) */
 		char *f = litfmt[id % 8];
-		int n = snprintf(f, 600, "lit%d:", id);
+		int n = snprintf(f, 600, "lit%d:", sz);
 		for (int i = 0; i < sz; i++) f[n + i] = 'k' + (i % 11);
 		f[n + sz] = 0;
 		qb_log_from_external_source(FN[fn], SRCFILE, f, prio, line, (uint32_t)tags);
@@ -632,6 +642,7 @@ static void chunk_damage(struct img *B, uint8_t *b, int j, const char *reg, cons
 		else if (tok(kind, "argcut")) { *rbyte(B, b, mend - 1) = *rbyte(B, b, mend - 1) ? 0 : 'Z'; }
 		else if (tok(kind, "pct")) { *rbyte(B, b, m0) = '%'; }
 		else if (tok(kind, "longdir")) { if (fl >= 2) { *rbyte(B, b, m0) = '%'; for (size_t q = 1; q + 1 < fl; q++) *rbyte(B, b, m0 + q) = '0'; *rbyte(B, b, m0 + fl - 1) = 'd'; } }
+		else if (tok(kind, "longmod")) { if (fl >= 2) { *rbyte(B, b, m0) = '%'; for (size_t q = 1; q + 1 < fl; q++) *rbyte(B, b, m0 + q) = 'l'; *rbyte(B, b, m0 + fl - 1) = 'd'; } }
 		else if (tok(kind, "width")) { if (fl >= 5) { rset(B, b, m0, "%900d", 5); } else if (fl >= 3) rset(B, b, m0, "%9d", 3); }
 		else if (tok(kind, "star")) { if (fl >= 3) rset(B, b, m0, "%*d", 3); }
 		else { *rbyte(B, b, m0) = 'X'; if (mend - 1 > m0 + fl + 1) *rbyte(B, b, m0 + fl + 1) ^= 0x1; }  /* soft */
@@ -830,6 +841,7 @@ int main(int argc, char **argv)
 	}
 	flush_queue();
 	do_fini();
+	if (log_up) qb_log_fini();
 	vt_close();
 	if (!keepdir) { char cmd[PATH_MAX + 16]; snprintf(cmd, sizeof(cmd), "rm -rf %s", workdir); if (system(cmd)) { } }
 	return 0;
